@@ -277,6 +277,23 @@ impl SecondaryTransaction {
 
         let mut iters: Vec<RowSetIterator> = vec![];
 
+        // A sorted scan merges the row-sets by the sort key, so the key columns have to be read
+        // even if the caller does not ask for them (the optimizer relies on the key order of a
+        // scan and prunes the key column from the scan list afterwards: `select b from t order
+        // by a`). They are read as extra trailing columns and dropped from the returned chunks.
+        let sort_keys = find_sort_key_id(&self.table.columns);
+        let requested_columns = col_idx.len();
+        let mut scan_columns = col_idx.to_vec();
+        if opts.is_sorted {
+            for id in &sort_keys {
+                let key = StorageColumnRef::Idx(*id as u32);
+                if !scan_columns.contains(&key) {
+                    scan_columns.push(key);
+                }
+            }
+        }
+        let col_idx = &scan_columns[..];
+
         if let Some(rowsets) = self.snapshot.get_rowsets_of(self.table.table_id()) {
             for rowset_id in rowsets {
                 let rowset = self.version.get_rowset(self.table.table_id(), *rowset_id);
@@ -311,7 +328,6 @@ impl SecondaryTransaction {
         let final_iter = if iters.len() == 1 {
             iters.pop().unwrap().into()
         } else if opts.is_sorted {
-            let sort_keys = find_sort_key_id(&self.table.columns);
             // positions of the sort keys in the scanned column list (if all of them are scanned)
             let real_col_idx = sort_keys
                 .iter()
@@ -337,7 +353,7 @@ impl SecondaryTransaction {
             ConcatIterator::new(iters).into()
         };
 
-        Ok(SecondaryTableTxnIterator::new(final_iter))
+        Ok(SecondaryTableTxnIterator::new(final_iter, requested_columns))
     }
 
     /// Aggregate block statistics of one column. In the future, we might support predicate
